@@ -532,7 +532,9 @@ impl<'a> QGen<'a> {
     /// different between two documents that differ in one top-level member.
     pub fn root_dependent(&self, rng: &mut Rng) -> String {
         let pre = *rng.pick(&["$.elems", "$.list", "$..*", "$.*", "$.x.b", "$", "$.names"]);
-        let atom = match rng.below(11) {
+        let atom = match rng.below(13) {
+            11 => "reenter(@)".to_string(),
+            12 => "reenter(@) && @ != null".to_string(),
             8 => format!("{}(@, $.names)", rng.pick(&["in", "nin"])),
             9 => format!("{}(@, $.names)", rng.pick(&["any_of", "none_of", "subset_of"])),
             10 => format!("in(@.a, $.names) || $.names[0] == {}", quote_single(*rng.pick(&["d", "a", "aa"]))),
